@@ -44,6 +44,9 @@ typedef struct {
     uint64_t seed;
 } Params;
 
+/* decimal literal of any 64-bit value, signed or unsigned (atoll saturates above LLONG_MAX) */
+static long long parse_ll(const char *s) { return s[0] == '-' ? strtoll(s, NULL, 10) : (long long)strtoull(s, NULL, 10); }
+
 static int set_cfg_field(EbSvtAv1EncConfiguration *c, const char *name, long long v) {
 #define X(f) if (!strcmp(name, #f)) { c->f = v; return 1; }
     CFG_SCALARS(X)
@@ -252,7 +255,7 @@ int main(int argc, char **argv) {
     /* first pass: harness params (config fields need the handle's defaults first) */
     for (int i = 1; i < argc; i++) {
         char *eq = strchr(argv[i], '='); if (!eq) continue;
-        *eq = 0; const char *k = argv[i]; long long v = atoll(eq + 1);
+        *eq = 0; const char *k = argv[i]; long long v = parse_ll(eq + 1);
 #define PAR(name) if (!strcmp(k, #name)) P.name = (int)v;
         PAR(w) PAR(h) PAR(n) PAR(bd) PAR(content) PAR(stride_extra) PAR(padfill) PAR(scribble) PAR(drain) PAR(drain_k) PAR(recon)
         PAR(decode) PAR(hex) PAR(dec_threads) PAR(dec16) PAR(watchdog) PAR(dirty) PAR(eos) PAR(pts_base) PAR(pts_step) PAR(delay_us)
@@ -275,7 +278,7 @@ int main(int argc, char **argv) {
         if (strncmp(argv[i], "cfg.", 4)) continue;
         char *eq = strchr(argv[i], '='); if (!eq) continue;
         *eq = 0;
-        if (!set_cfg_field(&cfg, argv[i] + 4, atoll(eq + 1))) printf("ERR unknown-config-field %s\n", argv[i] + 4);
+        if (!set_cfg_field(&cfg, argv[i] + 4, parse_ll(eq + 1))) printf("ERR unknown-config-field %s\n", argv[i] + 4);
         *eq = '=';
     }
     e = svt_av1_enc_set_parameter(h, &cfg);
